@@ -19,7 +19,7 @@ Requirements for the change:
 1. It modifies only files under /tmp/wt_{tag}/src (keep it small: a few lines, the kind of slip a maintainer could plausibly make in a refactor or an "optimisation"; no new dependencies; do not touch tests).
 2. The crate still compiles and the existing test suite still passes unchanged: `cd /tmp/wt_{tag} && cargo test --offline` must report all 107 tests passing with your change applied.
 3. The breakage must need something SPECIFIC to manifest - a particular kind of position, a multi-step sequence of moves/commands, an unusual input, a particular expiry point/interleaving, or two cooperating sites that each look fine alone. It must NOT be something that ordinary use (e.g. searching from the start position, or any random game) would expose at once, and it must not be a crash on every input.
-4. Provide a demonstration that FAILS with your change and PASSES without it: an extra Rust unit test pasted temporarily into the relevant `mod tests` by a script, or a small shell/python script driving the built binary over stdin/stdout with UCI commands. You must actually run it both ways (`git stash` / `git stash pop` inside the worktree) and report the outputs.
+4. Provide a demonstration that FAILS with your change and PASSES without it: an extra Rust unit test pasted temporarily into the relevant `mod tests` by a script, or a small shell/python script driving the built binary over stdin/stdout with UCI commands. You must actually run it both ways and report the outputs. IMPORTANT: do NOT use `git stash` (the stash is shared between all worktrees of the repository and other people work in sibling worktrees at the same time); to test without your change run `git diff -- src > /tmp/wt_{tag}/mutation/patch.diff && git apply -R /tmp/wt_{tag}/mutation/patch.diff`, and re-apply it afterwards with `git apply /tmp/wt_{tag}/mutation/patch.diff`.
 
 Deliverables - create the directory /tmp/wt_{tag}/mutation/ containing:
  - patch.diff : output of `git diff -- src` with ONLY your seeded change (not the demonstration test);
